@@ -37,6 +37,10 @@ import (
 	"mosn.io/mosn/pkg/network"
 	"mosn.io/mosn/pkg/protocol/xprotocol"
 	"mosn.io/mosn/pkg/protocol/xprotocol/bolt"
+	"mosn.io/mosn/pkg/protocol/xprotocol/boltv2"
+	"mosn.io/mosn/pkg/protocol/xprotocol/dubbo"
+	"mosn.io/mosn/pkg/protocol/xprotocol/dubbothrift"
+	"mosn.io/mosn/pkg/protocol/xprotocol/tars"
 	"mosn.io/mosn/pkg/router"
 	"mosn.io/mosn/pkg/types"
 	"mosn.io/mosn/pkg/upstream/cluster"
@@ -166,9 +170,8 @@ func bRead(br *bufio.Reader) (*bFrame, error) {
 var e2eBroken int32 // consecutive cases whose warm-up exchange did not complete
 
 var (
-	e2eOnce    sync.Once
-	e2eFront   net.Listener
-	e2eFactory api.NetworkFilterChainFactory
+	e2eOnce  sync.Once
+	e2eFront = map[string]net.Listener{} // per protocol (wire tag): the downstream listener with that protocol's proxy filter
 )
 
 func e2eCluster(w int) string { return fmt.Sprintf("c02e2e-up%d", w) }
@@ -187,7 +190,9 @@ func e2eSetup() {
 		log.Proxy.SetLogLevel(lvl)
 		register()
 		configmanager.ParseServerConfig(&v2.ServerConfig{})
-		_ = xprotocol.RegisterXProtocolCodec(&bolt.XCodec{})
+		for _, c := range []api.XProtocolCodec{&bolt.XCodec{}, &boltv2.XCodec{}, &dubbo.XCodec{}, &dubbothrift.XCodec{}, &tars.XCodec{}} {
+			_ = xprotocol.RegisterXProtocolCodec(c)
+		}
 		cluster.NewClusterManagerSingleton(nil, nil, nil)
 		cm := cluster.GetClusterMngAdapterInstance()
 		var routers []v2.Router
@@ -196,13 +201,27 @@ func e2eSetup() {
 				MaxRequestPerConn: 1 << 20, ConnBufferLimitBytes: 32 * 1024}); err != nil {
 				panic(err)
 			}
-			for _, rt := range []byte{'p', 'r'} {
+			// p / r: bolt (timeouts travel in the frame and in headers); P / G / T / R: the protocols that cannot carry
+			// arbitrary headers get their timeouts from the route (plain / global timeout / per-try timeout / retries)
+			for _, rt := range []byte{'p', 'r', 'P', 'G', 'T', 'R'} {
 				r := v2.Router{RouterConfig: v2.RouterConfig{
 					Match: v2.RouterMatch{Headers: []v2.HeaderMatcher{{Name: "service", Value: e2eService(w, rt)}}},
 					Route: v2.RouteAction{RouterActionConfig: v2.RouterActionConfig{ClusterName: e2eCluster(w)}},
 				}}
-				if rt == 'r' {
+				switch rt {
+				case 'r':
 					r.Route.RetryPolicy = &v2.RetryPolicy{RetryPolicyConfig: v2.RetryPolicyConfig{RetryOn: true, NumRetries: 3}}
+				case 'P':
+					r.Route.Timeout = e2eLong * time.Millisecond
+				case 'G':
+					r.Route.Timeout = e2eTry * time.Millisecond
+				case 'T':
+					r.Route.Timeout = e2eLong * time.Millisecond
+					r.Route.RetryPolicy = &v2.RetryPolicy{RetryTimeout: e2eTry * time.Millisecond}
+				case 'R':
+					r.Route.Timeout = e2eLong * time.Millisecond
+					r.Route.RetryPolicy = &v2.RetryPolicy{RetryPolicyConfig: v2.RetryPolicyConfig{RetryOn: true, NumRetries: 3},
+						RetryTimeout: e2eTry * time.Millisecond}
 				}
 				routers = append(routers, r)
 			}
@@ -214,32 +233,34 @@ func e2eSetup() {
 		if err := router.GetRoutersMangerInstance().AddOrUpdateRouters(rc); err != nil {
 			panic(err)
 		}
-		var err error
-		e2eFactory, err = proxyfilter.CreateProxyFactory(map[string]interface{}{
-			"downstream_protocol": "bolt", "upstream_protocol": "bolt", "router_config_name": e2eRouter})
-		if err != nil {
-			panic(err)
-		}
-		e2eFront, err = net.Listen("tcp", "127.0.0.1:0")
-		if err != nil {
-			panic(err)
-		}
-		// every accepted downstream connection gets the real proxy filter, as activeListener.OnNewConnection does
-		go func() {
-			for {
-				rawc, err := e2eFront.Accept()
-				if err != nil {
-					return
-				}
-				ctx := variable.NewVariableContext(context.Background())
-				variable.Set(ctx, types.VariableAccessLogs, []api.AccessLog{})
-				variable.Set(ctx, types.VariableListenerName, "c02e2e")
-				conn := network.NewServerConnection(ctx, rawc, nil)
-				e2eFactory.CreateFilterChain(ctx, conn.FilterManager())
-				conn.FilterManager().InitializeReadFilters()
-				conn.Start(ctx)
+		for _, wire := range e2eWires {
+			factory, err := proxyfilter.CreateProxyFactory(map[string]interface{}{
+				"downstream_protocol": wire.mosn(), "upstream_protocol": wire.mosn(), "router_config_name": e2eRouter})
+			if err != nil {
+				panic(err)
 			}
-		}()
+			front, err := net.Listen("tcp", "127.0.0.1:0")
+			if err != nil {
+				panic(err)
+			}
+			e2eFront[wire.tag()] = front
+			// every accepted downstream connection gets the real proxy filter, as activeListener.OnNewConnection does
+			go func() {
+				for {
+					rawc, err := front.Accept()
+					if err != nil {
+						return
+					}
+					ctx := variable.NewVariableContext(context.Background())
+					variable.Set(ctx, types.VariableAccessLogs, []api.AccessLog{})
+					variable.Set(ctx, types.VariableListenerName, "c02e2e")
+					conn := network.NewServerConnection(ctx, rawc, nil)
+					factory.CreateFilterChain(ctx, conn.FilterManager())
+					conn.FilterManager().InitializeReadFilters()
+					conn.Start(ctx)
+				}
+			}()
+		}
 	})
 }
 
@@ -247,7 +268,7 @@ func e2eSetup() {
 // the scripted upstream and the recording client of one case
 
 type e2eArr struct {
-	uid  uint32
+	uid  uint64
 	tok  int // -1: no / unreadable token
 	conn int
 }
@@ -258,12 +279,12 @@ type e2eUp struct {
 	conns []net.Conn
 	wmu   []*sync.Mutex
 	arr   []e2eArr // request frames other than heartbeats and warm-ups, in arrival order
-	last  uint32   // id of the last frame of any kind (= the connection's id counter for bolt)
+	last  uint64   // id of the last frame of any kind (= the connection's id counter)
 	hb    int
 }
 
-func e2eTokOf(f *bFrame) int {
-	t := f.hdr["tok"]
+func e2eTokOf(f *e2eFrame) int {
+	t := f.htok
 	if !strings.HasPrefix(t, "t") {
 		return -1
 	}
@@ -274,7 +295,7 @@ func e2eTokOf(f *bFrame) int {
 	return n
 }
 
-func newE2EUp() *e2eUp {
+func newE2EUp(wire e2eWire) *e2eUp {
 	ln, err := net.Listen("tcp", "127.0.0.1:0")
 	if err != nil {
 		panic(err)
@@ -295,27 +316,27 @@ func newE2EUp() *e2eUp {
 			go func() {
 				br := bufio.NewReader(c)
 				for {
-					f, err := bRead(br)
+					f, err := wire.read(br, true)
 					if err != nil {
 						return
 					}
-					if f.typ == 0 {
+					if !f.req {
 						continue
 					}
 					u.mu.Lock()
 					u.last = f.id
 					u.mu.Unlock()
 					switch {
-					case f.cmd == 0: // heartbeat
+					case f.hb: // heartbeat
 						u.mu.Lock()
 						u.hb++
 						u.mu.Unlock()
 						wm.Lock()
-						c.Write(bResponse(f.id, 0, 0, nil, nil))
+						c.Write(wire.hbAck(f.id))
 						wm.Unlock()
-					case strings.HasPrefix(f.hdr["tok"], "w"): // warm-up: answered at once
+					case strings.HasPrefix(f.htok, "w"): // warm-up: answered at once
 						wm.Lock()
-						c.Write(bResponse(f.id, 2, 0, bKV("tok", f.hdr["tok"]), []byte(f.hdr["tok"])))
+						c.Write(wire.response(f.id, f.htok))
 						wm.Unlock()
 					default:
 						u.mu.Lock()
@@ -352,7 +373,7 @@ func (u *e2eUp) closeAll() {
 }
 
 type e2eDn struct {
-	id     uint32
+	id     uint64
 	status uint16
 	htok   string
 	btok   string
@@ -362,20 +383,20 @@ type e2eCli struct {
 	c      net.Conn
 	mu     sync.Mutex
 	frames []e2eDn // every response frame other than warm-up replies
-	warm   map[uint32]uint16
+	warm   map[uint64]uint16
 	dead   bool
 }
 
-func newE2ECli() *e2eCli {
-	c, err := net.Dial("tcp", e2eFront.Addr().String())
+func newE2ECli(wire e2eWire) *e2eCli {
+	c, err := net.Dial("tcp", e2eFront[wire.tag()].Addr().String())
 	if err != nil {
 		panic(err)
 	}
-	cl := &e2eCli{c: c, warm: map[uint32]uint16{}}
+	cl := &e2eCli{c: c, warm: map[uint64]uint16{}}
 	go func() {
 		br := bufio.NewReader(c)
 		for {
-			f, err := bRead(br)
+			f, err := wire.read(br, false)
 			if err != nil {
 				cl.mu.Lock()
 				cl.dead = true
@@ -386,16 +407,16 @@ func newE2ECli() *e2eCli {
 			if cl.warm != nil && f.id >= e2eWarmID && f.id < e2eWarmID+4096 {
 				cl.warm[f.id] = f.status
 			} else {
-				h, ok := f.hdr["tok"]
-				if !ok {
+				h := f.htok
+				if h == "" {
 					h = "-"
 				}
-				b := string(f.content)
+				b := f.body
 				if b == "" {
 					b = "-"
 				}
 				st := f.status
-				if f.typ != 0 || f.cmd != 2 { // not an rpc response at all
+				if f.req { // not an rpc response at all
 					st = 65535
 				}
 				cl.frames = append(cl.frames, e2eDn{f.id, st, hx.Tok(h), hx.Tok(b)})
@@ -861,14 +882,14 @@ type e2eResult struct {
 	stats   []string
 }
 
-func e2eRunPlan(world int, p *e2ePlan) e2eResult {
-	up := newE2EUp()
+func e2eRunPlan(world int, wire e2eWire, p *e2ePlan) e2eResult {
+	up := newE2EUp(wire)
 	defer up.closeAll()
 	cm := cluster.GetClusterMngAdapterInstance()
 	if err := cm.UpdateClusterHosts(e2eCluster(world), []v2.Host{{HostConfig: v2.HostConfig{Address: up.ln.Addr().String()}}}); err != nil {
 		panic(err)
 	}
-	cl := newE2ECli()
+	cl := newE2ECli(wire)
 	defer cl.c.Close()
 	res := e2eResult{}
 	// warm-up: until the pool's connection is up, then extraWarm more (moves the upstream id counter). Bounded: when the
@@ -879,8 +900,8 @@ func e2eRunPlan(world int, p *e2ePlan) e2eResult {
 		warmEnd = time.Now()
 	}
 	for i := 0; i < 400 && okWarm < 1+p.extraWarm && time.Now().Before(warmEnd); i++ {
-		id := uint32(e2eWarmID + i)
-		cl.c.Write(bRequest(id, 400, bKV("service", e2eService(world, 'p'), "tok", fmt.Sprintf("w%d", i)), []byte("w")))
+		id := uint64(e2eWarmID + i)
+		cl.c.Write(wire.request(id, world, fmt.Sprintf("w%d", i), nil))
 		var st uint16
 		got := e2eWait(func() bool {
 			cl.mu.Lock()
@@ -975,18 +996,7 @@ func e2eRunPlan(world int, p *e2ePlan) e2eResult {
 			var b []byte
 			for _, k := range st.ks {
 				q := p.reqs[k]
-				kv := []string{"service", e2eService(world, 'p'), "tok", fmt.Sprintf("t%d", q.tok)}
-				gto := e2eLong
-				switch q.kind {
-				case 'g':
-					gto = e2eTry
-				case 't':
-					kv = append(kv, types.HeaderTryTimeout, strconv.Itoa(e2eTry))
-				case 'r':
-					kv[1] = e2eService(world, 'r')
-					kv = append(kv, types.HeaderTryTimeout, strconv.Itoa(e2eTry))
-				}
-				b = append(b, bRequest(q.did, gto, bKV(kv...), []byte(fmt.Sprintf("t%d", q.tok)))...)
+				b = append(b, wire.request(uint64(q.did), world, fmt.Sprintf("t%d", q.tok), &q)...)
 				sent[k] = true
 				addLog(fmt.Sprintf("Q%d", k))
 			}
@@ -1011,7 +1021,7 @@ func e2eRunPlan(world int, p *e2ePlan) e2eResult {
 			a := up.arr[wi]
 			up.mu.Unlock()
 			tk := fmt.Sprintf("t%d", a.tok)
-			fr := bResponse(a.uid, 2, 0, bKV("tok", tk), []byte(tk))
+			fr := wire.response(a.uid, tk)
 			live := st.try == tries[st.k] && !done[st.k]
 			up.write(a.conn, fr)
 			addLog(fmt.Sprintf("A%d.%d", st.k, st.try))
@@ -1027,7 +1037,7 @@ func e2eRunPlan(world int, p *e2ePlan) e2eResult {
 			if closed {
 				continue
 			}
-			up.write(0, bResponse(st.id, 2, 0, bKV("tok", "t999"), []byte("t999")))
+			up.write(0, wire.response(uint64(st.id), "t999"))
 			addLog(fmt.Sprintf("J%d", st.id))
 		case 'w':
 			k := st.k
@@ -1156,23 +1166,77 @@ func e2eLinearize(logv []e2eLogEnt) []string {
 	return out
 }
 
+// e2eGenPlanFor: a plan the protocol can express (tars has no local error reply: only answered requests, the upstream
+// stays up)
+func e2eGenPlanFor(r *hx.Rng, wire e2eWire) *e2ePlan {
+	for {
+		p := e2eGenPlan(r)
+		if wire.errorReplies() {
+			return p
+		}
+		ok := true
+		for _, q := range p.reqs {
+			if q.kind != 'o' {
+				ok = false
+			}
+		}
+		for _, s := range p.steps {
+			if s.op == 'x' || s.op == 'e' || s.op == 'w' {
+				ok = false
+			}
+		}
+		if ok {
+			return p
+		}
+	}
+}
+
 func runE2E(c *hx.Ctx, rng *hx.Rng) {
 	e2eSetup()
-	plans := e2eCorpus()
-	for range plans {
-		c.Count("e2e.corpus")
-	}
 	if len(c.Args) == 4 && c.Args[0] == "e2e" { // direct replay of one plan: mosnh C02 e2e <warm> <reqs> <script>
 		p, ok := e2eParsePlan(c.Args)
 		if !ok {
 			panic("bad e2e plan")
 		}
-		plans = []*e2ePlan{p}
-	} else {
+		runE2EWire(c, boltWire{}, []*e2ePlan{p}, 0)
+		return
+	}
+	if len(c.Args) == 5 && c.Args[0] == "e2ex" { // mosnh C02 e2ex <proto> <warm> <reqs> <script>
+		wire := e2eWireOf(c.Args[1])
+		p, ok := e2eParsePlan(append([]string{"e2e"}, c.Args[2:]...))
+		if !ok || wire == nil {
+			panic("bad e2ex plan")
+		}
+		runE2EWire(c, wire, []*e2ePlan{p}, 0)
+		return
+	}
+	if !(len(c.Args) == 1 && c.Args[0] == "e2ex") { // `mosnh C02 e2ex`: only the other protocols
+		plans := e2eCorpus()
+		nc := len(plans)
 		for i := 0; i < c.N(420, 2600); i++ {
 			plans = append(plans, e2eGenPlan(rng.Fork()))
 		}
+		runE2EWire(c, boltWire{}, plans, nc)
 	}
+	// the other xprotocols through their own proxy filter and codec (kind e2ex)
+	for _, wire := range e2eWires[1:] {
+		var ps []*e2ePlan
+		for i := 0; i < c.N(70, 320); i++ {
+			ps = append(ps, e2eGenPlanFor(rng.Fork(), wire))
+		}
+		runE2EWire(c, wire, ps, 0)
+	}
+}
+
+func runE2EWire(c *hx.Ctx, wire e2eWire, plans []*e2ePlan, nCorpus int) {
+	for i := 0; i < nCorpus; i++ {
+		c.Count("e2e.corpus")
+	}
+	kind := "e2e"
+	if wire.tag() != "bolt" {
+		kind = "e2ex." + wire.tag()
+	}
+	atomic.StoreInt32(&e2eBroken, 0)
 	n := len(plans)
 	results := make([]e2eResult, n)
 	skews := make([]int, n)
@@ -1188,7 +1252,7 @@ func runE2E(c *hx.Ctx, rng *hx.Rng) {
 			defer wg.Done()
 			for i := range next {
 				for try := 0; try < 3; try++ {
-					results[i] = e2eRunPlan(w, plans[i])
+					results[i] = e2eRunPlan(w, wire, plans[i])
 					if results[i].anomaly == "" || results[i].anomaly == "warmup-failed" {
 						break
 					}
@@ -1204,22 +1268,26 @@ func runE2E(c *hx.Ctx, rng *hx.Rng) {
 			// not trustworthy, only the property predicate is evaluated on what the client received
 			results[i].impl += " skew:" + results[i].anomaly
 		}
-		c.Emit("C02", p.caseToks(), results[i].impl)
-		c.Count(fmt.Sprintf("e2e.n=%02d", len(p.reqs)))
+		toks := p.caseToks()
+		if wire.tag() != "bolt" {
+			toks = "e2ex " + wire.tag() + strings.TrimPrefix(toks, "e2e")
+		}
+		c.Emit("C02", toks, results[i].impl)
+		c.Count(fmt.Sprintf("%s.n=%02d", kind, len(p.reqs)))
 		for _, q := range p.reqs {
-			c.Count("e2e.req." + string(q.kind))
+			c.Count(kind + ".req." + string(q.kind))
 		}
 		for _, s := range p.steps {
-			c.Count("e2e.step." + string(s.op))
+			c.Count(kind + ".step." + string(s.op))
 		}
 		for _, s := range results[i].stats {
-			c.Count(s)
+			c.Count(strings.Replace(s, "e2e.", kind+".", 1))
 		}
 		for k := 0; k < skews[i]; k++ {
-			c.Count("e2e.rerun")
+			c.Count(kind + ".rerun")
 		}
 		if results[i].anomaly != "" {
-			c.Count("e2e.anomaly." + results[i].anomaly)
+			c.Count(kind + ".anomaly." + results[i].anomaly)
 		}
 	}
 }
